@@ -4,9 +4,9 @@ C15 — a package revision installs exactly what its image declares, and only
 permitted kinds.
 
 Only the property theorems (and examples showing their hypotheses are met by
-non-trivial states).  `fixed = true` everywhere except in the two
-`…_fails_on_unfixed_witness` theorems, which exhibit defect D6 on the model of the
-pinned (unrepaired) reconciler.
+non-trivial states).  `fixed = true` (the tree with fixes/D6.diff and fixes/D18.diff)
+everywhere except in the three `…_fails_on_unfixed_…witness` theorems, which exhibit
+defects D6 and D18 on the model of the pinned (unrepaired) code.
 
 Vocabulary (Xp/Proofs/C15.lean):
   `EntryOK r e`  – cache entry `e` is revision `r`'s full package stream, or a file
@@ -357,6 +357,15 @@ theorem installed_eq_declared_fails_on_unfixed_witness :
 theorem cache_entry_complete_fails_on_unfixed_witness :
     (World.run false false [wRev] wWorld (wSteps.take 1)).1.cache wRev.key = some (.content (wRev.docs.take 3)) ∧
     wRev.docs.take 3 ≠ wRev.docs := by
+  decide
+
+/-- D18 on the model of the pinned tree: the cache write fails while the last chunk is
+copied, the parser overlooks the error and ends on a stream that lacks the last two
+CRDs; the reconcile establishes two of four and reports success. -/
+theorem installed_eq_declared_fails_on_unfixed_store_witness :
+    (recStep false false wRev { store := true, seen := true, lost := some (wRev.docs.take 3) } Cache.empty {}).2.2.est.map List.length = some 2 ∧
+    (recStep false false wRev { store := true, seen := true, lost := some (wRev.docs.take 3) } Cache.empty {}).2.1.health = .healthy ∧
+    (recStep true false wRev { store := true, seen := true, lost := some (wRev.docs.take 3) } Cache.empty {}).2.2 = { res := "err:parse" } := by
   decide
 
 /-- the same history on the fixed reconciler: nothing is kept after the failed pull, the
